@@ -4,7 +4,6 @@ import (
 	"bytes"
 	"fmt"
 	"hash/fnv"
-	"sync"
 
 	"github.com/polynetwork/poly/common"
 	"github.com/polynetwork/poly/core/types"
@@ -68,7 +67,7 @@ func families() []*family {
 	return []*family{
 		{name: "cosmos", router: utils.COSMOS_ROUTER, chain: 105, vers: []uint64{10, 11}, kinds: []string{"ed", "secp"}, raw: rawCosmos,
 			hashes: func(s *vset) [][]byte { return [][]byte{s.hash33(), s.hash34()} }, deposit: true, ccmc: []byte{1, 2, 3}},
-		{name: "okex", router: utils.OKEX_ROUTER, chain: 112, vers: []uint64{10}, kinds: []string{"eth", "ed", "secp"}, raw: rawOkex,
+		{name: "okex", router: utils.OKEX_ROUTER, chain: 112, vers: []uint64{10}, kinds: []string{"ed", "secp"}, raw: rawOkex,
 			hashes: func(s *vset) [][]byte { return [][]byte{s.hash33()} }, deposit: true, ccmc: okexCCMC},
 		{name: "heimdall", router: utils.POLYGON_HEIMDALL_ROUTER, chain: 115, vers: []uint64{10}, kinds: []string{"hm"}, raw: rawHeimdall,
 			hashes: func(s *vset) [][]byte { return [][]byte{s.hashHM()} }, ccmc: []byte{4, 5, 6}},
@@ -176,11 +175,21 @@ func importTx(chain uint64, height int64, rawHdr []byte, d depositSub) *types.Tr
 // ---------------------------------------------------------------------------------------------------------------
 // pool of reusable worlds (one per worker)
 
-var simPool = sync.Pool{New: func() any { return hsenv.NewSim() }}
+// (a sync.Pool would drop the worlds at every GC cycle and re-allocate leveldb + a 4 MiB overlay each time)
+var simPool = make(chan *hsenv.Sim, 64)
 
 func withSim(d polyenv.Dump, f func(s *hsenv.Sim)) {
-	s := simPool.Get().(*hsenv.Sim)
+	var s *hsenv.Sim
+	select {
+	case s = <-simPool:
+	default:
+		s = hsenv.NewSim()
+	}
 	s.Load(d)
 	f(s)
-	simPool.Put(s)
+	select {
+	case simPool <- s:
+	default:
+		s.Close()
+	}
 }
